@@ -61,6 +61,8 @@ class Engine:
         self.log = []            # draw log, filled by the stubs
         self.cache = {}          # canonical cond key -> decided value
         self._ckmemo = {}
+        self._divmemo = {}
+        self._divax = []
         self._keep = []
         self.model = None        # a model of pc (valid when not None)
         self.values = {}         # name -> z3 const, for replay extraction
@@ -87,6 +89,29 @@ class Engine:
         if hi is not None:
             self.assume(v < lift(hi) if hi_strict else v <= lift(hi))
         return Sym(v)
+
+    def _norm(self, c):
+        """eliminate real divisions: a/b -> q with (b != 0 => q*b == a).  z3's incremental core is unreliable on `/`
+        (it answered sat with a model violating a/a = 1); with the defining equations the queries are polynomial"""
+        if not z3.is_expr(c):
+            return c
+        from .laws import elim_div
+        defs = []
+        r = elim_div(c, defs, self._divmemo)
+        self._keep.append(c)
+        for (q, a, b) in defs:
+            ax = z3.Implies(b != 0, q * b == a)
+            self.solver.add(ax)
+            self.pc.append(ax)
+            self._divax.append(ax)
+            if self.model is not None:
+                # the cached model knows nothing about the new quotient variable
+                try:
+                    if not z3.is_true(self.model.eval(ax, model_completion=True)):
+                        self.model = None
+                except z3.Z3Exception:
+                    self.model = None
+        return r
 
     def assume(self, c):
         if isinstance(c, SymBool):
@@ -120,6 +145,17 @@ class Engine:
         else:
             r = self.solver.check()
             self._last_model = self.solver.model() if r == z3.sat else None
+        if r == z3.sat and self._divax:
+            # the incremental core has been seen to answer sat with a model that violates a nonlinear constraint:
+            # validate the model on the nonlinear part (division definitions, the query itself); distrust it otherwise
+            m = self._last_model
+            try:
+                okm = all(z3.is_true(m.eval(c, model_completion=True)) for c in list(extra) + self._divax)
+            except z3.Z3Exception:
+                okm = False
+            if not okm:
+                r = z3.unknown
+                self.nbogus = getattr(self, 'nbogus', 0) + 1
         if r == z3.unknown:
             # the incremental core's nonlinear arithmetic is incomplete: retry with a fresh solver
             # (complete nlsat pipeline) on the whole path condition
@@ -322,22 +358,33 @@ class ConcreteEngine:
         self.notes = []
         self.violated_assumptions = []
 
-    def _get(self, name):
+    def _get(self, name, lo=None, hi=None):
         if name not in self.vals:
-            # symbol created after the failed obligation was evaluated in the symbolic run: any value will do
+            # symbol created after the failed obligation was evaluated in the symbolic run: any value inside its
+            # declared range will do
             self.extended = True
-            return Fraction(1) if self.exact else 1.0
+            lo_ = None if lo is None or isinstance(lo, Sym) else Fraction(lo)
+            hi_ = None if hi is None or isinstance(hi, Sym) else Fraction(hi)
+            if lo_ is not None and hi_ is not None:
+                v = (lo_ + hi_) / 2
+            elif lo_ is not None:
+                v = lo_ + 1
+            elif hi_ is not None:
+                v = hi_ - 1
+            else:
+                v = Fraction(1)
+            return v if self.exact else float(v)
         v = self.vals[name]
         return Fraction(v) if self.exact else float(v)
 
     def var(self, name, lo=None, hi=None, lo_strict=False, hi_strict=False):
         self.fresh += 1
-        return self._get("%s_%d" % (name, self.fresh))
+        return self._get("%s_%d" % (name, self.fresh), lo, hi)
 
     def real(self, name, lo=None, hi=None, lo_strict=False, hi_strict=False, eq=None):
         if eq is not None:
             return Fraction(eq) if self.exact else float(eq)
-        return self._get(name)
+        return self._get(name, lo, hi)
 
     def assume(self, c):
         if c is False or (not isinstance(c, bool) and not c):
